@@ -1168,7 +1168,10 @@ func (e stakingCustomPrecompiledContractRwWithdrawRewards) withdrawRewards(ctx s
 		return false, err
 	}
 
-	allRewards, err := distkeeper.NewQuerier(dk).DelegationTotalRewards(ctx, &disttypes.QueryDelegationTotalRewardsRequest{
+	// the distribution querier increments the validator periods (a state change): run it on a branch which is never
+	// written back, so that a call which ends up withdrawing nothing changes nothing
+	queryCtx, _ := ctx.CacheContext()
+	allRewards, err := distkeeper.NewQuerier(dk).DelegationTotalRewards(queryCtx, &disttypes.QueryDelegationTotalRewardsRequest{
 		DelegatorAddress: delegatorAddrStr,
 	})
 	if err != nil {
